@@ -17,6 +17,10 @@ class BucketCrash(BaseException):
     """Raised by the fake bucket after the k-th mutation to model a process crash."""
 
 
+class Rejected(Exception):
+    """The bucket refused the write (throttling / 5xx): nothing was applied."""
+
+
 class LostResponse(Exception):
     """The write was applied by the bucket but the client sees an error (timeout / connection reset)."""
 
@@ -57,6 +61,7 @@ class FakeS3(object):
         self.log = []          # (op, bucket, key, actor)
         self.crash_after = None  # int: raise BucketCrash right after that many further mutations
         self.crash_kind = 'crash'  # 'crash' -> BucketCrash (BaseException); 'lost' -> LostResponse (Exception)
+        self.reject_puts = 0     # int: that many further puts in a row are refused (Rejected) and NOT applied
         self.actor = None      # harness label for who is calling (set by the harness around calls)
         self.reads = 0
 
@@ -93,6 +98,9 @@ class _Body(object):
 
 class _Client(object):
     def put_object(self, Bucket, Key, Body, **kw):  # noqa: N803
+        if CURRENT.reject_puts:
+            CURRENT.reject_puts -= 1
+            raise Rejected('put %s' % Key)
         if isinstance(Body, str):
             Body = Body.encode('utf-8')
         CURRENT.bucket(Bucket)[Key] = (bytes(Body), CURRENT.now(), dict(kw))
